@@ -90,4 +90,9 @@ theorem memWord_sub (big : Bool) (q : Nat) (bytes : List Nat) (h : ∀ b ∈ byt
   rw [List.getD_eq_getElem?_getD]
   simp [List.getElem?_map, List.getElem?_range hs]
 
+/-- Length of the image: `ceil((base - offset + len)/(4q))` words. -/
+theorem memImage_length (big : Bool) (q baseOff : Nat) (bytes : List Nat) :
+    (memImage big q baseOff bytes).length = (baseOff + bytes.length + 4 * q - 1) / (4 * q) := by
+  simp [memImage]
+
 end Litex.Export
